@@ -102,7 +102,9 @@ def call(op: str, a: dict) -> dict:
             elif op == "arrange":
                 K.arrange(weight_factor=(None if a["wfmode"] < 0 else a["wfmode"]))
             elif op == "arrange_perm":
-                K.arrange(permutation=I(a["perm"]))
+                # the documented forms of a permutation: tuple, list, array (rotated with the array layout)
+                form = {"default": I, "swapped": list, "strided": tuple, "grown": tuple}[bind.get_layout()]
+                K.arrange(permutation=form(a["perm"]))
             elif op == "fixsigns":
                 K.fixsigns()
             elif op == "fixsigns_ref":
